@@ -135,7 +135,12 @@ func VF_C14_Encoding() {
 		op = operations.NewIncreaseOperation(vf.I32("delta"))
 	case 1:
 		t := operations.NewTransactionOperation(str)
-		t.GetBody().NumOfOps = vf.I32("n")
+		// a unit announces its own length: any length a client can produce (1 .. 2^31-1) is
+		// carried as it is (set through the setter the client code uses)
+		n := vf.I32("n")
+		vf.Assume(n >= 1)
+		t.SetNumOfOps(int(n))
+		vf.Assert(int(t.GetNumOfOps()) == int(n), "C14/C09 a transaction header carries the length it was given")
 		op = t
 	case 2:
 		op = operations.NewPutOperation(str, c14Value("v"))
